@@ -19,7 +19,7 @@ PROPS = {
         "assumptions": ["error classes, not messages, are compared", "stored ancestor sets are taken from the store as built (closure is C04's subject)"],
     },
     "C06": {
-        "streams": [("c06", 10000, 500000)],
+        "streams": [("c06", 6000, 500000)],
         "definitional": False,
         "rule": "generated Cedar text policies/templates (all operators, extension calls incl. wrong arity, has-chains, is-in, != > >=, 0-3 when/unless "
                 "clauses, annotations with escapes, both slots) and policy sets of 1-4 of them with 1-2 links per template, plus hand-built EST JSON "
